@@ -39,6 +39,8 @@ type PropSpec struct {
 	Extra       func(c *Checker)                                // additional, property specific obligations / analyses
 	Replay      func(c *Checker, o *Obl) map[string]interface{} // property-level replay for obligations without a recipe
 	MinObls     int
+	SweepPkgs   map[string]bool // every function of these packages is encoded (zero-annotation obligations of the property's classes)
+	SweepSkip   *regexp.Regexp  // source files left out of the sweep
 	TrustedBase []string
 	Assumptions []string
 	NotDecided  []string
@@ -109,6 +111,7 @@ func cmdCheck(args []string, repo, spec string, timeout int, verbose bool) int {
 	c.writersObligations()
 	c.ifaceTypeObligations()
 	c.frameObligations()
+	c.frozenObligations()
 	if ps.Extra != nil {
 		ps.Extra(c)
 	}
@@ -127,13 +130,30 @@ func (c *Checker) selectAndEncode() {
 		}
 	}
 	sort.Strings(keys)
+	done := map[*ssa.Function]bool{}
 	for _, k := range keys {
 		f := c.W.Funcs[k]
 		if f == nil || f.Blocks == nil {
 			c.engineErr = append(c.engineErr, fmt.Sprintf("contract for %s: no such function in %s (renamed or removed?)", k, c.W.Repo))
 			continue
 		}
+		done[f] = true
 		c.addFunc(f, nil)
+	}
+	if c.Prop.SweepPkgs != nil {
+		for _, f := range c.W.FuncList {
+			if done[f] || f.Blocks == nil || f.Pkg == nil || !c.Prop.SweepPkgs[f.Pkg.Pkg.Name()] {
+				continue
+			}
+			if fc := c.W.CS.Funcs[funcKey(f)]; fc != nil && fc.Trusted {
+				continue
+			}
+			file := c.W.Fset.Position(f.Pos()).Filename
+			if strings.HasSuffix(file, "_test.go") || (c.Prop.SweepSkip != nil && c.Prop.SweepSkip.MatchString(file)) || !f.Pos().IsValid() {
+				continue
+			}
+			c.addFunc(f, nil)
+		}
 	}
 }
 
@@ -198,7 +218,18 @@ func (c *Checker) writersObligations() {
 	}
 }
 
+var onlyRe = func() *regexp.Regexp {
+	if s := os.Getenv("GVC_ONLY"); s != "" {
+		return regexp.MustCompile(s) // development aid: restrict a check to some functions (never set by ./check users)
+	}
+	return nil
+}()
+
 func (c *Checker) addFunc(f *ssa.Function, filter func(*Obl) bool) *enc {
+	if onlyRe != nil && !onlyRe.MatchString(funcKey(f)) {
+		e := &enc{w: c.W, f: f, key: funcKey(f), assumptions: map[string]bool{}, notes: map[string]int{}}
+		return e
+	}
 	e := encodeFunc(c.W, f, &EncOpts{})
 	c.Encs = append(c.Encs, e)
 	if !e.ok {
@@ -674,6 +705,50 @@ func (w *World) ifaceMethod(key string) (types.Type, *types.Func) {
 // ifaceTypeObligations: "iface-types I: T1, T2" closes an interface. Every conversion to I anywhere
 // in the program must start from one of the listed types (MakeInterface), and nothing may be turned
 // into an I by interface conversion or type assertion.
+// frozenObligations: a field declared frozen is stored, on objects that are not fresh in the storing
+// activation, only by functions of the declaring package (which builds the objects).
+func (c *Checker) frozenObligations() {
+	w := c.W
+	w.immutableArr("")
+	var keys []string
+	for k := range w.CS.Types {
+		keys = append(keys, k)
+	}
+	sort.Strings(keys)
+	for _, k := range keys {
+		td := w.CS.Types[k]
+		for _, f := range td.Frozen {
+			arr := "H_" + td.Pkg + "." + td.Type + "." + f
+			used := false
+			for _, e := range c.Encs {
+				if _, ok := e.heapSort[arr]; ok {
+					used = true
+				}
+			}
+			if !used {
+				continue
+			}
+			var ws, bad []string
+			for fk := range w.Mod.Writers[arr] {
+				ws = append(ws, fk)
+				if !strings.HasPrefix(fk, td.Pkg+".") {
+					bad = append(bad, fk)
+				}
+			}
+			sort.Strings(ws)
+			sort.Strings(bad)
+			var holder *enc
+			for _, e := range c.Encs {
+				if _, ok := e.heapSort[arr]; ok && holder == nil {
+					holder = c.structEnc(e.f)
+				}
+			}
+			c.addStruct(holder, "frame", "frozen:"+td.Type+"."+f, holder.f.Pos(), len(bad) == 0,
+				fmt.Sprintf("stores to %s.%s of objects not allocated by the storing activation: %d functions, outside package %s: %v", td.Type, f, len(ws), td.Pkg, bad))
+		}
+	}
+}
+
 func (c *Checker) ifaceTypeObligations() {
 	w := c.W
 	var keys []string
